@@ -116,7 +116,7 @@ Close Scope string_scope.
 Open Scope list_scope.
 Open Scope Z_scope.
 
-Definition root_tag (r : g_root) : Z := match r with RSymbolDir => 0 | RCacheDir => 1 | RServerUrl => 2 | RUnknown => 3 end.
+Definition root_tag (r : g_root) : Z := match r with RSymbolDir => 0 | RCacheDir => 1 | RServerUrl => 2 | RUnknown => 3 | RTmpDir => 4 end.
 (* g_flow_table = g_consumer_joins without Coq strings (C17/FlowProofs.v flow_table_is_the_site_list) *)
 Definition site_arg (fn : str) (tag : Z) : option g_arg :=
   option_map snd (find (fun s => str_eqb (fst (fst s)) fn && Z.eqb (root_tag (snd (fst s))) tag) g_flow_table).
